@@ -1,6 +1,6 @@
 (* C13 — Topic aliases always resolve to the intended topic at the receiver.  Statements only;
    proofs in Conn/Session.v, Conn/AliasTable.v, Conn/AliasInv.v and Conn/AliasHist.v.  Nothing else may be added to this file. *)
-From MQ Require Import Base.Prelude Conn.Types Conn.TopicAlias Conn.ConnRecord Conn.Step Corr.ConnTrace Conn.Run Conn.Session Conn.AliasTable Conn.AliasInv Conn.AliasHist Conn.PairQos Conn.AliasPair.
+From MQ Require Import Base.Prelude Conn.Types Conn.TopicAlias Conn.ConnRecord Conn.Step Corr.ConnTrace Conn.Run Conn.Session Conn.AliasTable Conn.AliasInv Conn.AliasHist Conn.PairQos Conn.PairQos5 Conn.AliasPair.
 
 (* receive side, every state: an aliased PUBLISH with an empty topic is delivered with exactly the
    topic bound to that alias on this connection, one with a topic is delivered as it is, and
@@ -151,6 +151,29 @@ Theorem C13_deliver_qos0_with_alias : forall g c r G q t,
                      c_ta_recv c' = Some r' /\ tr_max r' = tr_max r /\ tracks r' (rx_step G q).
 Proof. exact deliver_qos0_with_alias. Qed.
 Print Assumptions C13_deliver_qos0_with_alias.
+
+(* ... and of a QoS 1 / QoS 2 PUBLISH with automatic responses: notified once with that topic, the acknowledgement requested,
+   the flow-control and handled sets updated as for a PUBLISH without alias *)
+Theorem C13_deliver_qos1_with_alias : forall g c r G q t,
+  ready5 c -> c_auto_pub c = true -> c_ta_recv c = Some r -> tracks r G ->
+  (match k_alias q with Some a => 1 <= a <= tr_max r | None => True end) ->
+  k_type q = T_PUBLISH -> k_qos q = 1 -> recv_quota_left c -> ack_fits g c -> rx_topic (rx_step G q) q = Some t ->
+  exists c' e q' r', deliver g c q = Ok (c', e) /\ notifies e = [q'] /\ sends e = [ack_pkt g T_PUBACK V50 (k_pid q) None] /\ errors e = [] /\
+                     k_topic q' = t /\ c_ta_recv c' = Some r' /\ tr_max r' = tr_max r /\ tracks r' (rx_step G q) /\
+                     c_publish_recv c' = del (k_pid q) (ins (k_pid q) (c_publish_recv c)).
+Proof. exact deliver_qos1_with_alias. Qed.
+Print Assumptions C13_deliver_qos1_with_alias.
+
+Theorem C13_deliver_qos2_with_alias : forall g c r G q t,
+  ready5 c -> c_auto_pub c = true -> c_ta_recv c = Some r -> tracks r G ->
+  (match k_alias q with Some a => 1 <= a <= tr_max r | None => True end) ->
+  k_type q = T_PUBLISH -> k_qos q = 2 -> mem (k_pid q) (c_qos2 c) = false -> recv_quota_left c -> ack_fits g c ->
+  rx_topic (rx_step G q) q = Some t ->
+  exists c' e q' r', deliver g c q = Ok (c', e) /\ notifies e = [q'] /\ sends e = [ack_pkt g T_PUBREC V50 (k_pid q) None] /\ errors e = [] /\
+                     k_topic q' = t /\ c_ta_recv c' = Some r' /\ tr_max r' = tr_max r /\ tracks r' (rx_step G q) /\
+                     c_qos2 c' = ins (k_pid q) (c_qos2 c) /\ c_publish_recv c' = ins (k_pid q) (c_publish_recv c).
+Proof. exact deliver_qos2_with_alias. Qed.
+Print Assumptions C13_deliver_qos2_with_alias.
 
 (* C13_partial: nothing of the property is left to the monitor alone on the MODEL side; the
    implementation is judged by mon_c13 (an independent receiver-side table replayed over the packets
